@@ -394,10 +394,27 @@ Section Frame.
       induction es as [|e es IH]; intros Hes; cbn [write_images]; [reflexivity|]. inversion Hes as [|? ? He Hes']; subst.
       rewrite ge_id_fr by exact He. rewrite image_lookup_fr. rewrite IH by exact Hes'. reflexivity.
     Qed.
+    (* the cursor branch of write (F43 repair) *)
+    Lemma write_cur_entries_fr : forall es o, Forall gent_in es ->
+      write_cur_entries s' (image_lookup s' g) es o = write_cur_entries s (image_lookup s g) es o.
+    Proof.
+      induction es as [|e es IH]; intros o Hes; cbn [write_cur_entries]; [reflexivity|]. inversion Hes as [|? ? He Hes']; subst.
+      rewrite ge_id_fr by exact He. rewrite image_lookup_fr. rewrite ge_bytes_fr by exact He.
+      destruct (image_lookup s g (ge_id s e)); [|reflexivity]. destruct (_ && _); [|reflexivity]. destruct (_ <? W32); [|reflexivity].
+      rewrite IH by exact Hes'. unfold gent_in in He. rewrite rd16_fr by lia. rewrite Hget by lia. reflexivity.
+    Qed.
+    Lemma write_cur_images_fr : forall es, Forall gent_in es ->
+      write_cur_images s' (image_lookup s' g) es = write_cur_images s (image_lookup s g) es.
+    Proof.
+      induction es as [|e es IH]; intros Hes; cbn [write_cur_images]; [reflexivity|]. inversion Hes as [|? ? He Hes']; subst.
+      rewrite ge_id_fr by exact He. rewrite image_lookup_fr. rewrite IH by exact Hes'. reflexivity.
+    Qed.
     Lemma group_write_fr : group_write s' g = group_write s g.
     Proof.
-      unfold group_write, write_with. rewrite g_entries_fr. pose proof g_entries_in as F.
-      rewrite write_entries_fr by exact F. rewrite write_images_fr by exact F. rewrite !(sec_bytes_fr (r_off g) 6) by lia. reflexivity.
+      unfold group_write, write_with. rewrite g_entries_fr, g_type_fr. pose proof g_entries_in as F.
+      rewrite write_entries_fr by exact F. rewrite write_images_fr by exact F.
+      rewrite write_cur_entries_fr by exact F. rewrite write_cur_images_fr by exact F.
+      rewrite !(sec_bytes_fr (r_off g) 6) by lia. reflexivity.
     Qed.
   End Group.
 
